@@ -1202,6 +1202,7 @@ class XEl:
     xsi_type: str | None = None  # clark name of a model class target
     any_prim: bool = False  # xsi:type must name an XSD builtin consistent with the value
     cls: str | None = None  # name of the binding class this element is bound to (None: leaf / generic / wrapper)
+    wrapper: bool = False  # the wrapper element of a list field (metadata 'wrapper')
 
     def to_json(self):
         def c(x):
@@ -1366,7 +1367,7 @@ class Ref:
             if f.wrapper:
                 if not out and False:
                     return []
-                w = XEl(clark(self.field_ns(c, decl, f.namespace, "Element"), f.wrapper), content=out)
+                w = XEl(clark(self.field_ns(c, decl, f.namespace, "Element"), f.wrapper), content=out, wrapper=True)
                 return [w]
             return out
         return self.one_value(c, decl, f, v)
